@@ -221,6 +221,29 @@ func (g *Gen) Name() Name {
 			}
 		}
 		return n
+	case 3:
+		// names whose presentation forms lie next to each other at a label boundary: the first two labels
+		// of a pool name as they are, merged into one label that holds a dot, or with a backslash as the last
+		// octet of the first (text: a.b / a\.b / a\\.b / a\\\.b) - different names, nearly the same text
+		n := base.Clone()
+		if len(n) >= 2 && !g.Plain {
+			a, b := n[0], n[1]
+			switch g.R.IntN(4) {
+			case 0:
+				if len(a)+1+len(b) <= 63 {
+					n = append(Name{append(append(append([]byte{}, a...), '.'), b...)}, n[2:]...)
+				}
+			case 1:
+				if len(a) < 63 && n.WireLen() < 255 {
+					n[0] = append(append([]byte{}, a...), '\\')
+				}
+			case 2:
+				if len(a)+2+len(b) <= 63 && n.WireLen() < 255 {
+					n = append(Name{append(append(append([]byte{}, a...), '\\', '.'), b...)}, n[2:]...)
+				}
+			}
+		}
+		return n
 	default: // prepend labels
 		n := base.Clone()
 		k := 1 + g.R.IntN(2)
